@@ -530,7 +530,91 @@ def check_len(facts, chk):
             chk.violation('C04.len', 'C04.len:pseudoalignment', where=RS + '::pseudoalignment', detail='number of writers is not mapped_names.len()')
 
 
+def check_writer(facts, chk, tier):
+    """Small-scope abstract interpretation of the incremental writer (AlnWriter::new / write_split_kmer / finalise /
+    get_seq) driven exactly as RefSka::pseudoalignment drives it: every subset of valid match centres on small
+    references (1-3 contigs, including contigs shorter than k), distinct symbolic reference bytes per position,
+    compared with the property's statement (matched centre -> sample base; within (k-1)/2 of a matched centre on the
+    same contig -> reference byte; otherwise gap; then ambiguity / repeat masks).  Bounded: this decides the gap
+    geometry only up to the sizes enumerated, which is stated in the evidence."""
+    import itertools
+    from ..absint.interp import Interp, Panic
+    from ..absint.values import BV, Agg, RefV, Cell
+    names = [f['name'] for f in facts.adt(AW)['variants'][0]['fields']]
+    if 'seq_out' not in names:
+        raise AnchorLost('AlnWriter has no seq_out field')
+    shapes = {5: [(5,), (6,), (7,), (9,), (5, 7), (7, 5), (8, 8), (3, 7), (7, 3), (6, 2, 6)],
+              7: [(7,), (9,), (11,), (9, 8), (4, 9, 8)]}
+    if tier != 'thorough':
+        shapes = {5: [(5,), (7,), (9,), (7, 5), (8, 8), (3, 7), (6, 2, 6)], 7: [(9,), (4, 9, 8)]}
+    n_runs = 0
+    bad = []
+    for k, shs in shapes.items():
+        h = (k - 1) // 2
+        for lens in shs:
+            centres = [(c, p) for c, L in enumerate(lens) for p in range(h, L - h)]
+            total = sum(lens)
+            offs = [sum(lens[:c]) for c in range(len(lens))]
+            refbytes = [[128 + offs[c] + p for p in range(L)] for c, L in enumerate(lens)]
+            if total > 120:
+                raise AnchorLost('writer harness: reference too long for distinct symbols')
+            variants = [(False, (), None)]
+            if len(centres) >= 2:
+                variants += [(True, (), centres[0]), (False, (), centres[-1]), (False, tuple(range(0, total, 3)), None)]
+            for r in range(len(centres) + 1):
+                for sub in itertools.combinations(centres, r):
+                    for mask, repeats, amb_at in (variants if r in (len(centres), max(1, len(centres) // 2)) else variants[:1]):
+                        I = Interp(facts)
+                        refc = Cell(Agg('array', 0, [Agg('array', 0, [BV(8, b) for b in row]) for row in refbytes]), 'ref')
+                        repc = Cell(Agg('array', 0, [BV(64, x) for x in repeats]), 'repeats')
+                        try:
+                            w = Cell(I.call_fn(AW + '::new', [RefV(refc), BV(64, k), RefV(repc), BV(1, int(mask))]), 'writer')
+                            for (c, pp) in sub:
+                                base = ord('R') if amb_at == (c, pp) else ord('A')
+                                I.call_fn(AW + '::write_split_kmer', [RefV(w), BV(64, pp), BV(64, c), BV(8, base)])
+                            I.call_fn(AW + '::finalise', [RefV(w)])
+                            out = I.call_fn(AW + '::get_seq', [RefV(w)])
+                            got = [x.val for x in I.load(out).fields]
+                        except Panic as e:
+                            got = 'panic: %s' % e
+                        want = [45] * total
+                        for (c, pp) in sub:
+                            for q in range(max(0, pp - h), min(lens[c], pp + h + 1)):
+                                want[offs[c] + q] = refbytes[c][q]
+                        for (c, pp) in sub:
+                            base = ord('R') if amb_at == (c, pp) else ord('A')
+                            want[offs[c] + pp] = ord('N') if (base == ord('R') and mask) else base
+                        for x in repeats:
+                            if want[x] != 45:
+                                want[x] = ord('N')
+                        n_runs += 1
+                        if got != want:
+                            bad.append((k, lens, sub, mask, repeats, got, want))
+                            if len(bad) > 3:
+                                break
+                    if len(bad) > 3:
+                        break
+                if len(bad) > 3:
+                    break
+    key = 'C04.writer:AlnWriter:small-scope'
+    if bad:
+        k, lens, sub, mask, repeats, got, want = bad[0]
+
+        def render(v, lens=lens):
+            if isinstance(v, str):
+                return v
+            return ''.join('-' if x == 45 else ('N' if x == 78 else ('A' if x == 65 else ('R' if x == 82 else 'r'))) for x in v)
+        chk.violation('C04.writer', key, where=AW, evals=n_runs,
+                      detail='k=%d contigs=%s matched centres (contig,pos)=%s mask_ambig=%s repeats=%s: writer gives %s, the property requires %s (r = reference base, A/R = sample base)'
+                             % (k, lens, list(sub), mask, list(repeats), render(got), render(want)),
+                      construct=dict(k=k, contig_lengths=lens, matches=list(sub)))
+    else:
+        chk.ok('C04.writer', key, AW, 'output = matched centres + reference flanks within (k-1)/2 + gaps, then masks, for all %d (reference shape, match subset, mask) configurations with k in {5,7}' % n_runs,
+               evals=n_runs, sample=dict(shapes={str(k): v for k, v in shapes.items()}, runs=n_runs))
+
+
 def run(facts, chk, tier, only=None):
+    chk.guard('C04.writer', 'C04.writer:run', lambda: check_writer(facts, chk, tier))
     chk.guard('C04.case', 'C04.case:run', lambda: check_case(facts, chk))
     chk.guard('C04.prefix', 'C04.prefix:run', lambda: check_prefix(facts, chk))
     chk.guard('C04.strand', 'C04.strand:run', lambda: check_strand(facts, chk))
